@@ -13,6 +13,9 @@
 #include "memory_interface.h"
 #include "operand.h"
 #include "register.h"
+#ifdef TEAKRA_VERIF
+#include "verif_hooks.h"
+#endif
 
 namespace Teakra {
 
@@ -82,6 +85,9 @@ public:
             if (vinterrupt_pending.exchange(false)) {
                 regs.ipv = 1;
             }
+#ifdef TEAKRA_VERIF
+            TEAKRA_VERIF_YIELD(Verif::InterpreterAfterLatchSample);
+#endif
 
             u16 opcode = mem.ProgramRead((regs.pc++) | (regs.prpage << 18));
             auto& decoder = decoders[opcode];
